@@ -276,7 +276,7 @@ def pc_hook(st):
 
 
 def do_case(res, agg, sect, row, f, word, mode, regvals, nzcv, it, addr, ver, neg=None, mempatch=None, cpsr_or=0,
-            note="", holder=None, excl=False):
+            note="", excl=False):
     """One case through SemEnv.run.  Returns the captured model state (or None when not compared)."""
     e = env(ver)
     res.cases += 1
@@ -401,7 +401,6 @@ def run_reg(res, agg, cls, ver, ai, tier):
     row = BR[cls]
     addr = ADDRS[row.iset][ai]
     thumb = row.iset != A32
-    bxj_t = cls == "BxjT1"
     regs_full = [1, 14]
     regs_diag = [0, 7, 8, 12, 13] + ([15] if cls in ("BxA1", "BxT1") else [])
     targets = [(b, low) for b in TARGET_BASES for low in range(4)]
@@ -532,7 +531,7 @@ def run_all_encodings(res, agg, cls, lo, tier):
     if cls == "BT3":
         f0["c"] = 0
     mode = SVC
-    nzcv = 0b0100               # Z set: EQ passes (B T3 uses cond = lo-derived, see below)
+    nzcv = 0b0100               # B T3 takes its condition from the encoding number: some pass, some fail
     pre = e.install(row.make(**f0), row, mode, dict(TAGS), nzcv << 1, 0, 0, CODE)
     pre_mem = plan.mem()
     base_loc = dict(zip(names, pre))
@@ -629,15 +628,28 @@ REGSETS = [
 PUWS = [(1, 1, 0), (1, 0, 0), (0, 1, 1), (1, 1, 1)]
 
 
-def base_fields(row, regs, puw, fail):
+def lookup(tab, row, word):
+    """Row the module's table maps the word to.  The ARM cond = 1111 space is a separate table (A5.1): conditional
+    rows do not match there (some row modules list unconditional rows after conditional ones they overlap with)."""
+    if row.iset == A32 and (word >> 28) == 0xF:
+        for r in tab.rows[A32]:
+            if not r.cond and (word & r.mask) == r.value and (r.guard is None or r.guard(r.extract(word))):
+                return r
+        return None
+    hit = tab.lookup(row.iset, word)
+    return hit[0] if hit else None
+
+
+EXCEPTION_RETURNS = ("RfeA1", "RfeT1", "RfeT2", "LdmExceptionReturnA1")     # end in an unconditional write of the PC
+
+
+def base_fields(row, regs, puw, fail, imm=0):
     f = {}
     fl = row.fields
     for l, pos in fl.items():
         w = len(pos)
         if l == "c":
-            f[l] = (0x0 if fail else 0xE) if (row.iset == A32 or fail) else 0x0
-            if row.iset != A32 and not fail:
-                f[l] = 0x0           # B T1 / T3 own condition: EQ; flags decide
+            f[l] = 0xE if (row.iset == A32 and not fail) else 0x0      # B T1 / T3: EQ, the flags (Z = 0) make it fail
         elif row.group == "block" and l == "r":
             f[l] = 0b1100 & ((1 << w) - 1)
         elif row.group == "block" and l == "m" and w == 5:
@@ -650,6 +662,8 @@ def base_fields(row, regs, puw, fail):
             f[l] = puw[1] if "P" in fl else 1
         elif l == "W" and w == 1:
             f[l] = puw[2] if "P" in fl else 0
+        elif l in "ij" and row.group != "branch":
+            f[l] = imm                # immediates: 0 first, then 1 (LSL / ROR #0 are MOV / RRX, other rows)
         else:
             f[l] = 0
     return f
@@ -658,10 +672,10 @@ def base_fields(row, regs, puw, fail):
 def attempts(row):
     """(fields, it, nzcv) candidates for a predictable instance, plain ones first, failing-condition ones last."""
     seen = set()
-    for fail in (False, True):
-        for regs in REGSETS:
+    for fail in ((False, True) if row.group == "branch" else (False,)):     # only the branch model evaluates conditions
+        for regs, imm in [(r, 0) for r in REGSETS] + [(REGSETS[0], 1)]:
             for puw in (PUWS if "P" in row.fields and "U" in row.fields else PUWS[:1]):
-                f = base_fields(row, regs, puw, fail)
+                f = base_fields(row, regs, puw, fail, imm)
                 it = 0
                 if fail and row.iset != A32 and "c" not in row.fields:
                     it = 0x08
@@ -693,14 +707,13 @@ def find_instance(res, row, tab, ver):
     ntry = 0
     for f, it, nzcv in attempts(row):
         word = row.make(**f)
-        hit = tab.lookup(row.iset, word)
-        if hit is None or hit[0] is not row:
+        if lookup(tab, row, word) is not row:
             continue
         ctx = {"ver": ver, "in_it": bool(it & 0xF), "last_it": it & 0xF == 8, "C": 0}
         if row.unpredictable is not None and row.unpredictable(f, ctx):
             continue
         ntry += 1
-        if ntry > 8:
+        if ntry > 10:
             break
         st = model_only(row, f, word, it, nzcv, ver)
         if st is None:
@@ -739,7 +752,8 @@ def pc_source_variants(row, tab, f, ver):
         if l in row.fields and len(row.fields[l]) == 4 and not (row.group == "block" and l == "m") and \
                 not (row.group == "media" and l == "s"):
             cands.append({l: 15})
-    if "t" in row.fields and len(row.fields["t"]) == 4 and row.cls.startswith("Str") and row.group == "ldst":
+    if "t" in row.fields and len(row.fields["t"]) == 4 and ((row.cls.startswith("Str") and row.group == "ldst") or
+                                                            (row.cls.startswith("Push") and row.group == "block")):
         cands.append({"t": 15})
     if row.group == "block" and "r" in row.fields and len(row.fields["r"]) == 16 and row.cls.startswith(("Stm", "Push")):
         cands.append({"r": f["r"] | 0x8000})
@@ -749,8 +763,7 @@ def pc_source_variants(row, tab, f, ver):
         f2 = dict(f)
         f2.update(c)
         word = row.make(**f2)
-        hit = tab.lookup(row.iset, word)
-        if hit is None or hit[0] is not row:
+        if lookup(tab, row, word) is not row:
             continue
         if row.unpredictable is not None and row.unpredictable(f2, {"ver": ver, "in_it": False, "last_it": False, "C": 0}):
             continue
@@ -765,8 +778,9 @@ def run_b(res, agg, modname, k0, k1, tier):
         excl = row.cls.startswith("Strex")
         inst, wrote_pc = find_instance(res, row, tab, 7)
         if inst is None:
+            wrote_pc = wrote_pc or row.cls in EXCEPTION_RETURNS
             res.count("b_rows_always_writing_pc" if wrote_pc else "b_rows_skipped_no_predictable_instance")
-            res.outcome("b row %s: %s" % (row.cls, "every instance writes the PC" if wrote_pc else "no predictable instance built"))
+            res.count(("b_always_writes_pc:" if wrote_pc else "b_skipped:") + row.cls)
             continue
         res.count("b_rows_with_instance")
         f, word, it, nzcv = inst
@@ -778,7 +792,8 @@ def run_b(res, agg, modname, k0, k1, tier):
                 if st is not None and not st.pc_written:
                     seq += 1
                     # the advance itself, stated explicitly (the model's finish() is addr + length modulo 2^32)
-                    assert st.loc["R.PC"] == (addr + row.width // 8) & M32
+                    if st.loc["R.PC"] != (addr + row.width // 8) & M32:
+                        res.fail("model self-check: sequential PC", "%s at %#x" % (row.cls, addr))
         if seq:
             res.count("b_rows_pc_advance_compared")
         res.sample({"row": row.cls, "word": hex(word), "it": it, "sequential_cases": seq}, 3)
